@@ -295,7 +295,7 @@ def _value_case(case, res):
     j = pg.to_json(v)
     keep = copy.deepcopy(j)
     w1 = pg.from_json(j, allow_partial=True)
-    if j != keep:
+    if repr(j) != repr(keep):       # (repr: NaN is not == to itself)
       raise _JsonConsumed(keep, j)
     return w1
   routes.append(('json', json_twice))
@@ -336,7 +336,11 @@ def _value_case(case, res):
         same = pg.eq(v, w) and pg.eq(w, v)
       except Exception as e:   # pylint: disable=broad-except
         return res.violate('pg.eq raised %r after %s' % (e, name), law='eq-raises', route=name, **sig)
-      same = same and _loose_snap(v) == _loose_snap(w)
+      if name != 'json_hide_default':
+        # (with defaults hidden, a value that is == to its default comes back as the default: -0.0 / False for a
+        # default of 0 are symbolically equal to it, which is what the property asks; leaves are compared by kind
+        # on the other routes)
+        same = same and _loose_snap(v) == _loose_snap(w)
     if not same:
       return res.violate('%s of %s gives %s' % (name, core.safe_repr(v), core.safe_repr(w)), law='roundtrip-differs', route=name, **sig)
     if isinstance(v, pg.Symbolic):
